@@ -142,7 +142,7 @@ structure St where
   pairs : Array (Nat × Option String × Fn) := #[]
   nodes : Array (NodeFacts × String) := #[]
   apairs : Array (Nat × Option String × Fn × Option (Fn × String)) := #[]
-  aliasPrefix : String := "package "
+  aliasPrefix : String := ""
 
 def lastFacts (st : St) : Option Facts := st.sites.back?.map (·.2)
 
